@@ -36,13 +36,13 @@ Lemma example_whole_codepage : forall fdiv100,
             xfile_legal fdiv100 BiffRec_proofs.id_decode ex_wb (cp_choice cp) /\
             xls_open_model fdiv100 BiffRec_proofs.id_decode (fun _ => []) 1
                            (xls_file_write ex_wb (cp_choice cp)) =
-            Ok (spec_result ex_wb (cp_choice cp)) /\
-            spec_result ex_wb (cp_choice cp) = spec_result ex_wb ex_ch)
+            Ok (spec_result (fun _ => []) ex_wb (cp_choice cp)) /\
+            spec_result (fun _ => []) ex_wb (cp_choice cp) = spec_result (fun _ => []) ex_wb ex_ch)
          [1252; 932; 1200; 65001; 54321] /\
   xfile_legal fdiv100 BiffRec_proofs.id_decode ex_wb cp_choice_two /\
   xls_open_model fdiv100 BiffRec_proofs.id_decode (fun _ => []) 1
-                 (xls_file_write ex_wb cp_choice_two) = Ok (spec_result ex_wb cp_choice_two) /\
-  spec_result ex_wb cp_choice_two = spec_result ex_wb ex_ch /\
+                 (xls_file_write ex_wb cp_choice_two) = Ok (spec_result (fun _ => []) ex_wb cp_choice_two) /\
+  spec_result (fun _ => []) ex_wb cp_choice_two = spec_result (fun _ => []) ex_wb ex_ch /\
   (* the globals of the 1252 variant: BOF, InterfaceHdr, CodePage 1252 *)
   firstn 12 (skipn 20 (xls_stream_write ex_wb (cp_choice 1252))) =
     [225; 0; 2; 0; 176; 4; 66; 0; 2; 0; 228; 4].
